@@ -197,3 +197,31 @@ def _sr_arccos(x):
 
 SR.radians = _sr_radians
 SR.arccos = _sr_arccos
+
+
+# ---------------------------------------------------------------------------
+# cos / sin / tan of a symbolic real (radians): a unit pair per distinct term
+def trig_pair(x):
+    cx = Ctx.cur
+    e = z3.simplify(x.e)
+    if z3.is_rational_value(e) and e.numerator_as_long() == 0:
+        return z3.RealVal(1), z3.RealVal(0)
+    for (k, v) in cx.sqrt_memo.items():
+        if isinstance(k, tuple) and k[0] == 'trig' and z3.eq(v[0], e):
+            return v[1]
+    c, s = cx.fresh('cos'), cx.fresh('sin')
+    cx.assume(c * c + s * s == 1)
+    cx.sqrt_memo[('trig', e.get_id())] = (e, (c, s))
+    return c, s
+
+
+SR.cos = lambda x: SR(trig_pair(x)[0])
+SR.sin = lambda x: SR(trig_pair(x)[1])
+
+
+def _sr_tan(x):
+    c, s = trig_pair(x)
+    return SR(s) / SR(c)
+
+
+SR.tan = _sr_tan
